@@ -202,7 +202,7 @@ impl InSitu {
     pub fn new(which: Prop, tier: Tier, seed: u64) -> InSitu {
         let shapes = Shapes::new(Feat { fail: true, not: true, cut: true, ..Feat::default() }, 2, 1);
         let n_shapes = shapes.total();
-        InSitu { which, seed, shapes, n_shapes, n_rand: if tier == Tier::Quick { 20_000 } else { 300_000 } }
+        InSitu { which, seed, shapes, n_shapes, n_rand: if tier == Tier::Quick { 60_000 } else { 500_000 } }
     }
     fn pick(&self, idx: u64) -> Case {
         if idx < self.n_shapes { return self.shapes.get(idx); }
